@@ -15,7 +15,9 @@
     X:<o>:<done>       destroy(): the flag before the test-and-set
     C:<o>              the file server's FidDestroy is called
     K                  Conn.close has closed conn.done (logged after the close; the model's
-                       closeDone fires at the first region that depends on it)
+                       closeDone fires at the first region that depends on it; a retain that read
+                       conn.done open and is logged after the copy of the table is replayed as
+                       having run before the close, if Conn.close has not visited its fid yet)
     S:<o>,<o>,…|-      Conn.close: the copy of the table
     V:<o>:<pending>:<kept>   Conn.close: one fid of the copy; whether it took the table's reference
   The acceptor replays them on G9.FidLife.FS and compares everything the code saw with the
@@ -72,10 +74,24 @@ def fobserve (s : FS) (tok : String) : FR FS :=
     let some c := bool01? c | .error "bad flag"
     let some r := r.toInt? | .error "bad count"
     let s ← (if c then ensureClosed s else .ok s)
-    fexpect "fid.retain: saw the connection open after Conn.close had copied the table" (s.closed == c) s!"model closed={s.closed}"
-    let s ← ffire s (.retain o)
-    fexpect "fid.retain: refcount" ((s.obj o).ref == r) s!"model {(s.obj o).ref}"
-    pure s
+    if !c && s.closed then
+      -- The region read conn.done before Conn.close closed it and was logged after the copy of the
+      -- table (retain runs under the fid's lock, the copy under the connection's: they overlap). It
+      -- commutes with closeDone and the snapshot as long as Conn.close has not visited this fid —
+      -- the visit needs the fid's lock, so it is logged after this region if it came after it.
+      let x := s.obj o
+      let unvisited := match s.snap with
+        | none => true
+        | some l => l.contains o
+      fexpect "fid.retain: saw the connection open after Conn.close had visited the fid"
+        (decide (o < s.n) && x.pending && decide (1 ≤ x.holds) && unvisited) s!"model snap={repr s.snap} pending={x.pending}"
+      let s' := setO s o { x with ref := x.ref + 1, tbl := true, pending := false }
+      fexpect "fid.retain: refcount" ((s'.obj o).ref == r) s!"model {(s'.obj o).ref}"
+      pure s'
+    else do
+      let s ← ffire s (.retain o)
+      fexpect "fid.retain: refcount" ((s.obj o).ref == r) s!"model {(s.obj o).ref}"
+      pure s
   | ["I", o, r] => do
     let some o := o.toNat? | .error "bad object"
     let some r := r.toInt? | .error "bad count"
